@@ -803,6 +803,21 @@ pub fn enum_lex(shard: usize, nshards: usize, f: &mut dyn FnMut(&[u8])) {
             emit(&["en-t-", k, "-", t], &mut idx);
         }
     }
+    // multi-subtag registry types: every contiguous sub-sequence of their words under every registry key, alone,
+    // followed by another keyword, and after an attribute
+    for seq in lx::UTYPE_SEQS {
+        let w: Vec<&str> = seq.split('-').collect();
+        for i in 0..w.len() {
+            for j in i + 1..=w.len() {
+                let part = w[i..j].join("-");
+                for k in lx::UKEYS {
+                    emit(&["en-u-", k, "-", &part], &mut idx);
+                    emit(&["ar-SA-u-", k, "-", &part, "-nu-arab"], &mut idx);
+                    emit(&["en-u-attr-", k, "-", &part, "-t-en"], &mut idx);
+                }
+            }
+        }
+    }
     for l in lx::LANGS {
         for s in ["", "-Latn", "-Arab", "-Cyrl"] {
             for r in ["", "-US", "-PK", "-001"] {
@@ -846,3 +861,67 @@ pub const SUBST_POOL: &[&str] = &[
     "en-t-k0-abc-z9-true-x-1-zz",
     "en-a-abc-b-12345678",
 ];
+
+
+/// Count-threshold inputs: identifiers whose number of subtags of one kind sits on either side of 2^8 and 2^16 (a small
+/// counter that wraps, an index type that is too narrow, a fixed-capacity buffer), each followed by one tail of every
+/// class so that whatever the wrapped counter re-enables is offered directly behind it. `which` selects the case;
+/// `None` once the enumeration is exhausted.
+pub fn long_case(which: usize, big: bool) -> Option<Vec<u8>> {
+    let sizes: &[usize] = if big { &[254, 255, 256, 257, 258, 511, 512, 513, 65535, 65536, 65537] } else { &[254, 255, 256, 257, 258, 511, 512, 513] };
+    // (prefix, element generator kind, tails)
+    const LANGID_TAILS: &[&str] = &["", "-Latn", "-US", "-419", "-abcd", "-a", "-u-ca-abc", "-x-a", "-a0000", "-toolongsubtag", "-en"];
+    const U_TAILS: &[&str] = &["", "-ca-abc", "-t-en", "-x-a", "-abcdefghi", "-a0", "-u-ca", "-aaa00000"];
+    const T_TAILS: &[&str] = &["", "-k0-abc", "-u-ca-abc", "-x-a", "-abcdefghi", "-en", "-t-en"];
+    const X_TAILS: &[&str] = &["", "-a", "-abcdefghi", "-u", ""];
+    let shapes: &[(&str, u8, &[&str])] = &[
+        ("en", b'v', LANGID_TAILS),
+        ("sr-Cyrl-RS", b'v', LANGID_TAILS),
+        ("und-419", b'v', LANGID_TAILS),
+        ("en-u", b'a', U_TAILS),
+        ("en-u-attr", b'k', U_TAILS),
+        ("en-u-ca", b't', U_TAILS),
+        ("en-t-de-Latn", b'v', T_TAILS),
+        ("en-t-k0", b'w', T_TAILS),
+        ("en-t-de", b'f', T_TAILS),
+        ("en-x", b'p', X_TAILS),
+        ("en-u-ca-abc-x", b'p', X_TAILS),
+    ];
+    let mut idx = which;
+    for (prefix, kind, tails) in shapes {
+        let per = sizes.len() * tails.len();
+        if idx >= per {
+            idx -= per;
+            continue;
+        }
+        let n = sizes[idx / tails.len()];
+        let tail = tails[idx % tails.len()];
+        let mut out: Vec<u8> = Vec::with_capacity(prefix.len() + n * 9 + tail.len());
+        out.extend_from_slice(prefix.as_bytes());
+        for i in 0..n {
+            out.push(b'-');
+            match kind {
+                // distinct variants / attributes / types / tvalues / private tags: one letter + seven digits
+                b'v' | b'a' | b't' | b'w' | b'p' => out.extend_from_slice(format!("{}{:07}", if *kind == b'p' { 'p' } else { 'a' }, n - 1 - i).as_bytes()),
+                // distinct keyword keys (letter/digit + letter: 36 * 26 = 936) each with one type
+                b'k' => {
+                    let k = i % 936;
+                    let first = b"abcdefghijklmnopqrstuvwxyz0123456789"[k / 26];
+                    out.push(first);
+                    out.push(b'a' + (k % 26) as u8);
+                    out.extend_from_slice(b"-typ");
+                }
+                // distinct tfield keys (letter + digit: 260) each with one value
+                _ => {
+                    let k = i % 260;
+                    out.push(b'a' + (k / 10) as u8);
+                    out.push(b'0' + (k % 10) as u8);
+                    out.extend_from_slice(b"-val");
+                }
+            }
+        }
+        out.extend_from_slice(tail.as_bytes());
+        return Some(out);
+    }
+    None
+}
